@@ -87,6 +87,19 @@ func VH_C05_Continue() {
 		verifrt.Assert(err == nil, "join succeeds for a seated player")
 		s := seat_manager.VHSeatOf(te.sm, p.Seat)
 		verifrt.Assert(p.IsIn && s.Occ && s.In, "joining marks the player seated-in in the table and in the seat manager")
+	case 3:
+		// chips added between hands (add-on): like the re-buy, it must make a busted player
+		// eligible again — the seat manager's has-chips view is what the next rotation uses
+		st := te.table.State.Status
+		verifrt.Assume(st != TableStateStatus_TableGameOpened && st != TableStateStatus_TableGamePlaying && st != TableStateStatus_TableGameSettled)
+		p := te.table.State.PlayerStates[who]
+		amount := verifrt.Int64("amount")
+		verifrt.Assume(amount > 0 && amount < 1<<40)
+		verifrt.Assume(p.Bankroll >= 0 && p.Bankroll < 1<<40)
+		err := te.PlayerRedeemChips(JoinPlayer{PlayerID: p.PlayerID, RedeemChips: amount})
+		verifrt.Assert(err == nil, "add-on succeeds")
+		s := seat_manager.VHSeatOf(te.sm, p.Seat)
+		verifrt.Assert(s.Occ && s.Chips && p.Bankroll > 0, "add-on between hands: the player has chips in both views")
 	}
 	verifrt.Reach("end")
 }
